@@ -544,6 +544,8 @@ inductive Action where
   | toggle (token : String)                            -- `ToggleRelay`
   | setSendEnabled (d : Denom) (b : Bool)
   | selfdestruct (c : Addr)
+  | addCoin (d : Denom) (c : Addr)                     -- governance `AddCoin`: one more denomination for the pair of contract `c`
+  | updateERC20 (old new : Addr) (metaOk : Bool)       -- governance `UpdateTokenPairERC20`; `metaOk`: the bank metadata / `QueryERC20` comparison passes
   | restart                                            -- node restart through a genesis export / import of the module
 
 def applyCall (w : World σ) (c : Addr) : Call σ → World σ
@@ -568,6 +570,50 @@ def toggleRelay (w : World σ) (token : String) : World σ :=
       | none => w
       | some i' => { w with pairs := fun j => if j = i' then some { p with enabled := !p.enabled } else w.pairs j }
 
+/-! ### governance operations that rewrite a stored pair (keeper/proposals.go), as functions on the pair record -/
+
+/-- `AddCoin` on the record: `pair.Denoms = append(pair.Denoms, base)`; every other field as stored. -/
+def addCoinPair (p : Pair) (d : Denom) : Pair := { p with denoms := p.denoms ++ [d] }
+
+/-- `UpdateTokenPairERC20` on the record: `pair.ERC20Address = new`; every other field as stored. -/
+def updatePair (p : Pair) (new : Addr) : Pair := { p with addr := new }
+
+/-- `ToggleRelay` on the record. -/
+def togglePair (p : Pair) : Pair := { p with enabled := !p.enabled }
+
+/-- `Keeper.AddCoin` (metadata name = base denomination; supply / EVM-denom / metadata checks are the caller's):
+module enabled → denomination not registered → pair of the contract found → id unchanged → pair and index written. -/
+def addCoin (w : World σ) (d : Denom) (c : Addr) : World σ :=
+  if !w.enabled then w
+  else if (w.byDenom d).isSome then w
+  else match w.byErc20 c with
+    | none => w
+    | some i =>
+      match w.pairs i with
+      | none => w
+      | some p =>
+        if (addCoinPair p d).id? ≠ some i then w
+        else { w with pairs := fun j => if j = i then some (addCoinPair p d) else w.pairs j
+                      byDenom := fun e => if e = d then some i else w.byDenom e }
+
+/-- `Keeper.UpdateTokenPairERC20`: pair of `old` found → `new` not registered → metadata comparison → the pair is
+deleted, re-pointed, stored under its new id and indexed again (every denomination, the new address). -/
+def updateERC20 (w : World σ) (old new : Addr) (metaOk : Bool) : World σ :=
+  match w.byErc20 old with
+  | none => w
+  | some i =>
+    match w.pairs i with
+    | none => w
+    | some p =>
+      if (w.byErc20 new).isSome then w
+      else if !metaOk then w
+      else match w.deletePair p, (updatePair p new).id? with
+        | some w1, some i' =>
+          { w1 with pairs := fun j => if j = i' then some (updatePair p new) else w1.pairs j
+                    byErc20 := fun a => if a = new then some i' else w1.byErc20 a
+                    byDenom := fun e => if p.denoms.contains e then some i' else w1.byDenom e }
+        | _, _ => w
+
 def step (B : Addr → Behaviour σ) (w : World σ) : Action → World σ
   | .coin m => (deliverCoin B w m).1
   | .erc20 m => (deliverERC20 B w m).1
@@ -584,6 +630,8 @@ def step (B : Addr → Behaviour σ) (w : World σ) : Action → World σ
   -- x/aggregate/genesis.go: ExportGenesis = (params, every stored pair); InitGenesis stores the params and every pair
   -- as exported (with its Enabled flag) and rebuilds both indexes from it: the identity on a consistent registry
   | .restart => w
+  | .addCoin d c => addCoin w d c
+  | .updateERC20 old new metaOk => updateERC20 w old new metaOk
 
 def run (B : Addr → Behaviour σ) (w : World σ) : List Action → World σ
   | [] => w
